@@ -186,6 +186,7 @@ def gen(rng, n_state, n_e2e):
         timers = {n.name: str(rng.choice([F(0), F(0), F(0), F(1, 2), F(1)])) for n in ps.child_network_list if hasattr(n, "controller")}
         closed = []   # backups are open whenever islands are formed (asserted on every real call in the e2e cases)
         cases.append({"kind": "state", "spec": spec, "open": opened, "failed": failed, "timers": timers, "closed_backups": closed})
+    nt = 0
     for _ in range(n_e2e):
         spec = gen_spec(rng)
         n_inc = rng.choice([8, 10])
@@ -193,7 +194,8 @@ def gen(rng, n_state, n_e2e):
         ps = net.build(dict(spec, exact=False))
         case["faults"] = acct.rand_faults(rng, ps, n_inc, ("line",), nmax=4)
         ties = [l for l in ps.lines if l.is_backup]
-        if ties and rng.random() < 0.6:
+        nt += 1 if ties else 0
+        if ties and nt % 3 != 0:
             # a backup that fails while it is in service: a long primary fault next to the tie, then a fault on the tie itself in one
             # of the increments right after the sectioning time has run out (when the tie has been closed)
             import math
@@ -205,7 +207,24 @@ def gen(rng, n_state, n_e2e):
                 kt = k0 + math.ceil(T / dt) + rng.choice([0, 1, 1, 2])
                 case["n_inc"] = max(n_inc, kt + 4)
                 case["faults"] = {str(k0): [["line", rng.choice(prim).name, "6"]], str(kt): [["line", tl.name, str(rng.choice([F(1), F(2)]))]]}
-        if ties and len(cases) % 3 == 0:
+                # dry run of the primary fault alone (on the current tree): if some backup is in service at the end of an increment,
+                # the backup fault is placed on that very line in the next increment
+                rng.shuffle(prim)
+                for pl in prim[:4]:
+                    closed = []
+                    def obs(ps_, phase, info, _c=closed):
+                        if phase == "before_log":
+                            _c.append([l.name for l in ps_.lines if l.is_backup and l.connected])
+                    try:
+                        acct.e2e_run({"spec": spec, "n_inc": case["n_inc"], "dt": case["dt"], "faults": {str(k0): [["line", pl.name, "6"]]}, "save": False}, observe=obs)
+                    except Exception:
+                        break
+                    hit = [(k + 1, names) for k, names in enumerate(closed) if names and k + 2 <= case["n_inc"] - 2]
+                    if hit:
+                        k, names = hit[min(len(hit) - 1, rng.choice([0, 0, 1]))]
+                        case["faults"] = {str(k0): [["line", pl.name, "6"]], str(k + 1): [["line", rng.choice(names), str(rng.choice([F(1), F(2)]))]]}
+                        break
+        if ties and nt % 3 == 0:
             # two iterations on the same objects (the simulator's own run_iteration): the first one ends in the middle of an outage,
             # with a backup line closed; the second one starts from reset_system
             import math
@@ -226,7 +245,7 @@ def run(res):
     ns, ne = (150, 20) if res.tier == "quick" else (3000, 300)
     res.rule = ("1-3 feeders (laterals, 0-2 disconnectors per line), 1-3 backup ties (also two between the same pair of feeders), optional microgrid; "
                 "state cases: random lines/switches opened, failed backups, running sectioning timers, then find_sub_systems; "
-                "e2e: every find_sub_systems call of real runs with 1-4 injected overlapping line faults (ties included); 60% of the systems with ties instead get a long primary fault followed by a fault on the tie in the increments right after it has been closed. "
+                "e2e: every find_sub_systems call of real runs with 1-4 injected overlapping line faults (ties included); two of three systems with ties instead get a long primary fault followed by a fault on the tie in the increments right after it has been closed, every third is run for two iterations (Simulation.run_iteration) the first of which ends mid-outage with a backup closed. "
                 "non-trivial = distinct (number of islands, backups closed, backups available)")
     run_cases(res, gen(rng, ns, ne), handler)
 
